@@ -572,9 +572,9 @@ def r07_7_duration_total_fields(ctx: Ctx) -> RuleResult:
 
 # shared with C08: an embedded date/time pattern must hand every field of the parsed value to the outer bucket, or the text does
 # not parse back to the value that was formatted (home id R08.7)
-from .c08 import r08_7_embedded_fields as _r08_7  # noqa: E402
+# (cross-registration moved to sa/rules/shared.py: SHARED)
 
-rule("C07")(_r08_7)
+# (cross-registration moved to sa/rules/shared.py: SHARED)
 
 
 # ------------------------------------------------------------------------------------------- composite format predicates
